@@ -12,6 +12,7 @@ import (
 	"verif/harness/pooltrack"
 	"verif/harness/rawframe"
 	"verif/harness/refhpack"
+	"verif/harness/speer"
 )
 
 // C19 — no data races; a pooled object never has two owners.
@@ -166,6 +167,100 @@ func c19BurstGen(t *rapid.T) c19Burst {
 	return c
 }
 
+// c19CBurst: concurrent RoundTrips while the scripted server changes its
+// SETTINGS, grants window and pings, all at once.
+type c19CBurst struct {
+	Reqs []speer.ReqSpec `json:"reqs"`
+	Sets [][][2]uint32   `json:"sets"`
+}
+
+func c19CBurstRun(c c19CBurst) Outcome {
+	env, err := speer.NewEnv(clientOpts())
+	if err != nil {
+		return Outcome{Inconcl: "cannot set the client up: " + err.Error()}
+	}
+	defer env.Close()
+	sc := env.Conn(0)
+	if sc == nil {
+		return Outcome{Inconcl: "no connection"}
+	}
+	sc.SendWindowUpdate(0, 1<<24)
+	var calls []*speer.Call
+	for i, r := range c.Reqs {
+		calls = append(calls, env.Do(r))
+		if i < len(c.Sets) {
+			var kv [][2]uint32
+			for _, x := range c.Sets[i] {
+				if x[0] == 1 || x[0] == 5 || x[0] == 6 {
+					kv = append(kv, x)
+				}
+			}
+			sc.SendSettings(kv)
+			_ = sc.Write(rawframe.Append(nil, rawframe.Ping, 0, 0, make([]byte, 8)))
+		}
+	}
+	for round := 0; round < 10; round++ {
+		if ok, d := env.Quiesce(); !ok {
+			return Outcome{Inconcl: "no quiescence: " + d}
+		}
+		did := false
+		for _, s2 := range env.ConnsCopy() {
+			for sid, g := range peer.Assemble(s2.EventsCopy()) {
+				if sid%2 == 0 {
+					continue
+				}
+				if g.EndStream > 0 && !s2.Answered(sid) {
+					s2.MarkAnswered(sid)
+					blk := s2.EncodeBlock(nil, []peer.FieldSpec{{F: refhpack.Field{Name: ":status", Value: "200"}, R: refhpack.Rep{Kind: 0}}, {F: refhpack.Field{Name: "x-shared", Value: "one-value-for-all"}, R: refhpack.Rep{Kind: 0, Alt: 1}}})
+					_ = s2.Write(peer.SplitBlock(sid, blk, []int{3}, true, 0, false, 0, false, 0)[0])
+					if fs := peer.SplitBlock(sid, blk, []int{3}, true, 0, false, 0, false, 0); len(fs) > 1 {
+						_ = s2.Write(fs[1])
+					}
+					s2.StreamDone(sid)
+					did = true
+				} else if g.EndStream == 0 && !g.Rst {
+					if sw, _ := s2.Windows(sid); sw < 1<<20 {
+						s2.SendWindowUpdate(sid, uint32(1<<21-sw))
+						did = true
+					}
+				}
+			}
+		}
+		if !did {
+			break
+		}
+	}
+	for _, s2 := range env.ConnsCopy() {
+		if f, cv := s2.Violations(); f != "" || cv != "" {
+			return fail("limit-exceeded", "%s%s", f, cv)
+		}
+		for _, e := range s2.EventsCopy() {
+			if e.Kind == "headers" && e.HdrErr != "" {
+				return fail("header-block", "request header block on stream %d does not decode: %s", e.Stream, e.HdrErr)
+			}
+		}
+	}
+	for i, call := range calls {
+		if !call.Finished() || call.Err != nil || call.Status != 200 {
+			return fail("request", "request %s: finished=%v err=%v status=%d", c.Reqs[i].Tag, call.Finished(), call.Err, call.Status)
+		}
+	}
+	return Outcome{NonTrivial: len(c.Reqs) >= 2 && len(c.Sets) >= 1, Classes: []string{"cburst"}}
+}
+
+func c19CBurstGen(t *rapid.T) c19CBurst {
+	var c c19CBurst
+	n := rapid.IntRange(2, 8).Draw(t, "n")
+	for i := 0; i < n; i++ {
+		c.Reqs = append(c.Reqs, genClientReq(t, fmt.Sprintf("t%d", i), 70000))
+	}
+	k := rapid.IntRange(0, n).Draw(t, "nsets")
+	for i := 0; i < k; i++ {
+		c.Sets = append(c.Sets, c18GenSettings(t, true))
+	}
+	return c
+}
+
 func TestC19(t *testing.T) {
 	s := newSuite(t, "C19",
 		"a burst lane (requests with response header blocks up to 20000 octets and bodies up to 70000, SETTINGS changing HEADER_TABLE_SIZE / MAX_CONCURRENT_STREAMS / MAX_HEADER_LIST_SIZE, PING and RST_STREAM, all written without waiting, so every loop and the handlers run at once) and the generated workloads of C01 (burst, multiplexed exchanges), C09 (stream errors among live streams), C10 (connection errors with parked handlers and hostile trailing behaviour), C17 (disconnects, mutations, write failures, handlers outliving the connection), C18 (SETTINGS changes in the middle of traffic, both roles), C02 (concurrent RoundTrips, burst), C11 (GOAWAY racing requests) and C12 (faults, Client.Close racing RoundTrip, timeouts), the server-role cases run on 3 connections at the same time so the process-wide pools are shared (client-role cases one at a time: their quiescence test reads process-wide goroutine states), in a binary built with the Go race detector. Oracle: (1) no race report whose access stacks lie in github.com/dgrr/http2 (reports are parsed by the driver; signature = innermost library frame of each access); (2) the pool observer sees no double release, no object handed out while owned, no RequestCtx returned while its handler is inside; (3) each execution's own oracle. Non-trivial = a case its own lane counts as non-trivial (interleaved streams, SETTINGS mid-traffic, Close/RST racing a handler or a write); distinct by case hash.",
@@ -190,6 +285,7 @@ func TestC19(t *testing.T) {
 		c.Burst = rapid.IntRange(0, 3).Draw(t, "burst19") != 0
 		return c
 	}, Run: c19Par(1, c02Run)})
+	runLane(s, Lane[c19CBurst]{Name: "cburst", Journal: true, Quick: 40, Thor: 3000, Gen: c19CBurstGen, Run: c19Par(1, c19CBurstRun)})
 	runLane(s, Lane[c18CCase]{Name: "c18c", Journal: true, Quick: 20, Thor: 2000, Gen: c18CGen, Run: c19Par(1, c18ClientRun)})
 	runLane(s, Lane[c11Case]{Name: "c11", Journal: true, Quick: 20, Thor: 2000, Gen: c11Gen, Run: c19Par(1, c11Run)})
 	runLane(s, Lane[c12Case]{Name: "c12", Journal: true, Quick: 30, Thor: 2500, Gen: c12Gen, Run: c19Par(1, c12Run)})
